@@ -146,6 +146,54 @@ Definition pick_axes (ms : list bool) : nat * nat * nat :=
     else (1, 2, 0)%nat
   else (0, 1, 2)%nat.
 
+(* the "parallel" branch (|discr| < tol) *)
+Definition seg3d_par (tol : Q) (s1 e1 s2 e2 dl1 dl2 : pt3) (m1 m2 : list bool) : res3 :=
+  if negb (bools_eqb m1 m2) then R3None
+  else
+    let t := map2 Qdiv (sel m1 dl1) (sel m2 dl2) in
+    let t0 := nth 0 t 0 in let t1 := nth 1 t 0 in let t2 := nth 2 t 0 in
+    if (length t =? 2)%nat && qltb tol (Qabs (t0 - t1)) then R3None
+    else if (length t =? 3)%nat
+            && (qltb tol (Qabs (t0 - t1)) || qltb tol (Qabs (t0 - t2))) then R3None
+    else
+      let ds := map2 Qminus s2 s1 in
+      if qltb tol (Qabs (c3 ds 1 * c3 dl1 2 - c3 ds 2 * c3 dl1 1)) then R3None
+      else if qltb tol (Qabs (c3 ds 2 * c3 dl1 0 - c3 ds 0 * c3 dl1 2)) then R3None
+      else if qltb tol (Qabs (c3 ds 0 * c3 dl1 1 - c3 ds 1 * c3 dl1 0)) then R3None
+      else if negb (allclose tol (sel (map negb m1) s1) (sel (map negb m1) s2)) then R3None
+      else
+        match sel m1 s1, sel m1 e1, sel m1 s2, sel m1 e2 with
+        | a1 :: _, b1 :: _, a2 :: _, b2 :: _ =>
+            let max1 := qmax a1 b1 in let min1 := qmin a1 b1 in
+            let max2 := qmax a2 b2 in let min2 := qmin a2 b2 in
+            if qltb max1 min2 then R3None
+            else if qltb max2 min1 then R3None
+            else
+              let order := argsort [a1; b1; a2; b2] in
+              let full := [s1; e1; s2; e2] in
+              R3Cols [nth (nth 1 order 0%nat) full []; nth (nth 2 order 0%nat) full []]
+        | _, _, _, _ => R3Err IndexErr      (* start_1[mask_1][0] on an empty selection *)
+        end.
+
+(* the point branch: Cramer in the projection (i0, i1), then the check of axis ni *)
+Definition seg3d_pt (tol : Q) (s1 s2 dl1 dl2 : pt3) (i0 i1 ni : nat) : res3 :=
+  let discr' := c3 dl1 i0 * (- c3 dl2 i1) - c3 dl1 i1 * (- c3 dl2 i0) in
+  let t1 := ((c3 s2 i0 - c3 s1 i0) * (- c3 dl2 i1)
+             - (c3 s2 i1 - c3 s1 i1) * (- c3 dl2 i0)) / discr' in
+  let t2 := (c3 dl1 i0 * (c3 s2 i1 - c3 s1 i1)
+             - c3 dl1 i1 * (c3 s2 i0 - c3 s1 i0)) / discr' in
+  if qltb t1 0 || qltb 1 t1 || qltb t2 0 || qltb 1 t2 then R3None
+  else
+    let z1 := c3 s1 ni + t1 * c3 dl1 ni in
+    let z2 := c3 s2 ni + t2 * c3 dl2 ni in
+    if qltb (Qabs (z1 - z2)) tol then
+      let v0 := c3 s1 i0 + t1 * c3 dl1 i0 in
+      let v1 := c3 s1 i1 + t1 * c3 dl1 i1 in
+      (* vec[in_discr] = ..., vec[not_in_discr] = z_1_isect *)
+      R3Cols [ map (fun k => if (k =? i0)%nat then v0 else if (k =? i1)%nat then v1 else z1)
+                   [0; 1; 2]%nat ]
+    else R3None.
+
 Definition seg3d (tol : Q) (s1 e1 s2 e2 : pt3) : res3 :=
   let dl1 := map2 Qminus e1 s1 in
   let dl2 := map2 Qminus e2 s2 in
@@ -154,50 +202,8 @@ Definition seg3d (tol : Q) (s1 e1 s2 e2 : pt3) : res3 :=
   let ms := map2 orb m1 m2 in
   let '(i0, i1, ni) := pick_axes ms in
   let discr := c3 dl1 i0 * c3 dl2 i1 - c3 dl1 i1 * c3 dl2 i0 in
-  if qltb (Qabs discr) tol then
-    if negb (bools_eqb m1 m2) then R3None
-    else
-      let t := map2 Qdiv (sel m1 dl1) (sel m2 dl2) in
-      let t0 := nth 0 t 0 in let t1 := nth 1 t 0 in let t2 := nth 2 t 0 in
-      if (length t =? 2)%nat && qltb tol (Qabs (t0 - t1)) then R3None
-      else if (length t =? 3)%nat
-              && (qltb tol (Qabs (t0 - t1)) || qltb tol (Qabs (t0 - t2))) then R3None
-      else
-        let ds := map2 Qminus s2 s1 in
-        if qltb tol (Qabs (c3 ds 1 * c3 dl1 2 - c3 ds 2 * c3 dl1 1)) then R3None
-        else if qltb tol (Qabs (c3 ds 2 * c3 dl1 0 - c3 ds 0 * c3 dl1 2)) then R3None
-        else if qltb tol (Qabs (c3 ds 0 * c3 dl1 1 - c3 ds 1 * c3 dl1 0)) then R3None
-        else if negb (allclose tol (sel (map negb m1) s1) (sel (map negb m1) s2)) then R3None
-        else
-          match sel m1 s1, sel m1 e1, sel m1 s2, sel m1 e2 with
-          | a1 :: _, b1 :: _, a2 :: _, b2 :: _ =>
-              let max1 := qmax a1 b1 in let min1 := qmin a1 b1 in
-              let max2 := qmax a2 b2 in let min2 := qmin a2 b2 in
-              if qltb max1 min2 then R3None
-              else if qltb max2 min1 then R3None
-              else
-                let order := argsort [a1; b1; a2; b2] in
-                let full := [s1; e1; s2; e2] in
-                R3Cols [nth (nth 1 order 0%nat) full []; nth (nth 2 order 0%nat) full []]
-          | _, _, _, _ => R3Err IndexErr      (* start_1[mask_1][0] on an empty selection *)
-          end
-  else
-    let discr' := c3 dl1 i0 * (- c3 dl2 i1) - c3 dl1 i1 * (- c3 dl2 i0) in
-    let t1 := ((c3 s2 i0 - c3 s1 i0) * (- c3 dl2 i1)
-               - (c3 s2 i1 - c3 s1 i1) * (- c3 dl2 i0)) / discr' in
-    let t2 := (c3 dl1 i0 * (c3 s2 i1 - c3 s1 i1)
-               - c3 dl1 i1 * (c3 s2 i0 - c3 s1 i0)) / discr' in
-    if qltb t1 0 || qltb 1 t1 || qltb t2 0 || qltb 1 t2 then R3None
-    else
-      let z1 := c3 s1 ni + t1 * c3 dl1 ni in
-      let z2 := c3 s2 ni + t2 * c3 dl2 ni in
-      if qltb (Qabs (z1 - z2)) tol then
-        let v0 := c3 s1 i0 + t1 * c3 dl1 i0 in
-        let v1 := c3 s1 i1 + t1 * c3 dl1 i1 in
-        (* vec[in_discr] = ..., vec[not_in_discr] = z_1_isect *)
-        R3Cols [ map (fun k => if (k =? i0)%nat then v0 else if (k =? i1)%nat then v1 else z1)
-                     [0; 1; 2]%nat ]
-      else R3None.
+  if qltb (Qabs discr) tol then seg3d_par tol s1 e1 s2 e2 dl1 dl2 m1 m2
+  else seg3d_pt tol s1 s2 dl1 dl2 i0 i1 ni.
 
 (* ------------------------------------------------------------ comparison with the impl *)
 (* the implementation's floats, converted exactly to Q, against the exact model value *)
